@@ -8,6 +8,9 @@ ops (t = thread id):
   fin <t>      rest of t's send: EncryptDanger(c) / Store(Reject) -> `sealed <nonce>` | `refused` | `pinned` | `skip`
   hotsend <t>  the real sendInsideEncrypt as one step             -> `sealed <nonce>` | `refused` | `skip`
   load                                                           -> `<counter>`
+  lockrace <t> <rounds>  3·rounds real sendInsideEncrypt calls by contending goroutines (two senders,
+               one held inside EncryptDanger while the other starts)  -> `ok sealed=<k> ctr=<counter>` | `skip`
+               | `disorder <n> reached the cipher after <m>` (lock mode only; never produced by the model)
 -/
 import Nebula.Driver.Common
 import Nebula.Model.Counter
@@ -69,6 +72,18 @@ def step (s : S) (args : List String) (impl : String) : S × Out :=
          h := { ctr0 := c0, ceiling := reject.toNat, increasing := lock == "1" }, wrapped := false },
        { model := "ok", tag := "triv:reset" })
     | none => (s, badOp)
+  | ["lockrace", t, rounds] =>
+    match natArg t, natArg rounds with
+    | some t, some rounds =>
+      if (s.m.pend t).isSome then (s, { model := "skip", tag := "triv:skip" }) else
+      -- whoever wins the lock, each send is one critical section: 3·rounds atomic hot-path sends
+      let (s', k) := (List.range (3 * rounds)).foldl (fun (a : S × Nat) _ =>
+        let s1 := doAdd a.1 false t
+        let (s2, r) := doFin s1 t
+        (s2, match r with | .sealed _ => a.2 + 1 | _ => a.2)) (s, 0)
+      let verdict := if impl.startsWith "disorder" then s!"bad locked-not-monotone {impl}" else "ok"
+      (s', { model := s!"ok sealed={k} ctr={s'.m.ctr.toNat}", verdict := verdict, tag := "lockrace" ++ phase s })
+    | _, _ => (s, badOp)
   | [op, t] =>
     match natArg t with
     | none => (s, badOp)
